@@ -262,7 +262,17 @@ def _run_item(kind, r):
         text = "<html><head>PH</head><body>" + "".join("<p>%d</p>%s" % (i, sers[j]) for i, j in enumerate(r["order"])) + "</body></html>"
         doc = ht.HTMLTextDocument(text, deps_replace_pattern="PH")
         out = doc.render()
+        first_deps = [d.name + "@" + str(d.version) for d in out["dependencies"]]
+        # what render() returned is the caller's: re-pointing / renaming those objects does not change the document
+        for d_ in out["dependencies"]:
+            d_.name = d_.name + "-renamed-by-the-caller"
+            d_.source = {"href": "https://mirror.example/x"}
+            d_.script.append({"src": "added-by-the-caller.js"})
         again = doc.render()
+        out = dict(out, dependencies=[])
+        if [d.name + "@" + str(d.version) for d in again["dependencies"]] != first_deps:
+            again = {"html": "DIFFERENT DEPENDENCIES", "dependencies": []}
+        out["dependencies"] = again["dependencies"]
         return {"html": _d(out["html"]), "deps": [d.name + "@" + str(d.version) for d in out["dependencies"]], "ser": _d("".join(sers)),
                 "same_when_rendered_again": again["html"] == out["html"] and len(again["dependencies"]) == len(out["dependencies"])}
     if kind == "headc":
@@ -270,7 +280,17 @@ def _run_item(kind, r):
         out = ht.HTMLDocument(ht.div(*hcs, "x")).render()
         return {"html": _d(out["html"]), "names": [h.name for h in hcs], "deps": [d.name for d in out["dependencies"]]}
     if kind == "jsx":
-        return {"html": _d(str(c20.build(r)))}
+        comp = c20.build(r)
+        t = comp.tagify()
+        import htmltools as _h
+        old_mode = _h.html_dependency_render_mode
+        _h.html_dependency_render_mode = "json"
+        try:
+            with_deps = str(comp)
+        finally:
+            _h.html_dependency_render_mode = old_mode
+        return {"html": _d(str(comp)), "json_mode": _d(with_deps), "deps": [d.name + "@" + str(d.version) for d in t.get_dependencies(dedup=False)],
+                "document": _d(ht.HTMLDocument(ht.div(comp)).render()["html"])}
     if kind == "css":
         return {"html": _d(repr(ht.css(**dict(zip(r["keys"], r["vals"])))))}
     if kind == "classes":
